@@ -272,6 +272,21 @@ PROPS["C02"] = dict(
     thorough=dict(shards=16, checks=25, shrink_s=1, timeout_s=7200, env=dict(VERIF_SHRINK_S=60)),
 )
 
+PROPS["C13"] = dict(
+    pkg="props/c13", level="fault_enumeration", engine="E-crash", design_ref="§4 C13", aux_builds=RUNNER_AUX,
+    technique="PBT-generated async-WAL workloads (rapid) under strace; every system-call boundary is a crash image whose recovered content must equal a prefix model",
+    rule=("evaluation = one distinct (crash image, acknowledgement state) of a traced run with EnableAsyncWAL: small programs (as C02, memstore limit 256 B..16 MiB) and large programs (>= 4.7 MiB of incompressible "
+          "64..256 KiB values so that the 4 MiB WAL buffer is flushed in the middle of records); oracle per boundary: Open succeeds (twice, same content) and the content equals the map after the first p operations of "
+          "(acknowledged operations + the in-flight one) for some p >= the number of operations acknowledged before the last completed WAL rotation / clean Close / completed Open; non-trivial = boundary inside a multi-call "
+          "protocol (rotation, flush, compaction, recovery, shutdown); distinct = (case hash, boundary sequence number)"),
+    level_text="All crash points of each traced run are enumerated; the oracle is equality with some prefix model (no holes, no reordering) with a lower bound on the prefix.",
+    level_note="a rotation counts as completed when the next numbered WAL file has been created (the previous one was flushed and closed before); runs are samples of programs x schedules",
+    assumptions=CRASH_ASSUME,
+    require_labels=["win:wal-rotation", "win:flush", "small-program"],
+    quick=dict(shards=16, checks=1, shrink_s=1, env=dict(VERIF_SHRINK_S=20)),
+    thorough=dict(shards=16, checks=20, shrink_s=1, timeout_s=7200, env=dict(VERIF_SHRINK_S=60), require_labels=["win:wal-rotation", "win:flush", "small-program", "large-program-over-4MiB-of-log", "lost-suffix-of-acknowledged-writes"]),
+)
+
 NOT_APPLICABLE = {}
 
 
